@@ -15,4 +15,6 @@ HT = ['opm/input/eclipse/Schedule/%s.cpp' % n for n in ('Schedule', 'ScheduleSta
 def jobs(tier):
     return [dict(name='cow', src='h_cow.cpp', defs={}, entry='h_ptr_member,h_map_member', tus=[], fp='real', loopmax=2000, maxsteps=4000000),
             dict(name='handler_wgrupcon', src='h_handlers.cpp', defs={}, entry='h_wgrupcon', tus=HT, fp='real', loopmax=100000, maxsteps=400000000, timeout=1500, opts=['--ctors'],
-                 bounds='two report steps sharing two wells; WGRUPCON for one well at the later step with symbolic guide rate and scaling factor')]
+                 bounds='two report steps sharing two wells; WGRUPCON for one well at the later step with symbolic guide rate and scaling factor'),
+            dict(name='handler_wefac', src='h_handlers_well.cpp', defs={}, entry='h_wefac', tus=HT, fp='real', loopmax=100000, maxsteps=400000000, timeout=1500, opts=['--ctors'],
+                 bounds='two report steps sharing two wells; WEFAC for one well at the later step with a symbolic efficiency factor')]
